@@ -22,11 +22,19 @@ import (
 // Refused draws an input the engine must refuse: 1..2 arbitrary bytes that
 // fail the real input check, or an over-long input (256 / 300 bytes).
 func Refused(v *vrt.Ctx) []byte {
-	switch v.Choice("refused-shape", 3) {
+	switch v.Choice("refused-shape", 4) {
 	case 1:
 		return long(256)
 	case 2:
 		return long(300)
+	case 3:
+		// over the limit in bytes, under it in characters: a letter and 150
+		// two-byte characters (301 bytes, 151 characters)
+		b := []byte{'a'}
+		for i := 0; i < 150; i++ {
+			b = append(b, 0xc3, 0xa9)
+		}
+		return b
 	}
 	in := v.Bytes("refused", 1+v.Choice("refusedlen", 2))
 	for _, b := range in {
